@@ -141,6 +141,35 @@ class _ReorderingContext:
             return True
 
 
+class _NoReorderingRequests:
+    """Context manager that disables reordering requests.
+
+    Used by functions that index their arguments by levels
+    and hold unreferenced intermediate results,
+    so that no reordering happens while they run.
+    """
+
+    def __init__(
+            self,
+            bdd:
+                'BDD'
+            ) -> None:
+        self.bdd = bdd
+        self.last_len = None
+
+    def __enter__(
+            self):
+        self.last_len = self.bdd._last_len
+        self.bdd._last_len = None
+
+    def __exit__(
+            self,
+            ex_type,
+            ex_value,
+            tb):
+        self.bdd._last_len = self.last_len
+
+
 class _NeedsReordering(Exception):
     """Raise this to request reordering."""
 
@@ -2787,9 +2816,10 @@ def image(
     s.intersection_update(rename.values())
     if s:
         raise AssertionError(s)
-    return _image(
-        trans, source, rename_u, rename_v,
-        qvars, bdd, forall, cache)
+    with _NoReorderingRequests(bdd):
+        return _image(
+            trans, source, rename_u, rename_v,
+            qvars, bdd, forall, cache)
 
 
 def preimage(
@@ -2840,9 +2870,10 @@ def preimage(
     rename_v = rename
     # check
     _assert_valid_rename(target, bdd, rename)
-    return _image(
-        trans, target, rename_u, rename_v,
-        qvars, bdd, forall, cache)
+    with _NoReorderingRequests(bdd):
+        return _image(
+            trans, target, rename_u, rename_v,
+            qvars, bdd, forall, cache)
 
 
 def _image(
@@ -3147,10 +3178,11 @@ def copy_bdd(
             to_bdd.level_of_var(var)
         for var in from_bdd.vars
         if var in to_bdd.vars}
-    r = _copy_bdd(
-        u, level_map,
-        from_bdd, to_bdd,
-        cache=dict())
+    with _NoReorderingRequests(to_bdd):
+        r = _copy_bdd(
+            u, level_map,
+            from_bdd, to_bdd,
+            cache=dict())
     return r
 
 
